@@ -1,3 +1,4 @@
 //! Shared helpers for the verification harness binaries.
 pub mod batch;
+pub mod ir;
 pub mod sexp;
